@@ -159,6 +159,8 @@ func smNext(max int, occ int) {
 	}
 	if err != nil {
 		vAssert(err == ErrInsufficientNumberOfPlayers, "C17.only-the-insufficient-players-error")
+		// the refusal is legitimate only if letting the waiting players in still leaves fewer than two
+		vAssert(playable+waiting < 2, "C17.refused-only-when-fewer-than-two-can-play-after-letting-waiting-players-in")
 		vCover("sm.next-refused")
 		smInvAssert(sm, "@next-refused")
 		return
